@@ -117,6 +117,18 @@ def run(ctx):
                             replay_cmd=f"cd miri && MIRIFLAGS='-Zmiri-disable-isolation -Zmiri-disable-stacked-borrows -Zmiri-ignore-leaks -Zmiri-seed={m['seed']}' "
                                        f"cargo +nightly miri run --offline --bin {m['program']}",
                             proof=st["detail"]))
+    elif hb_ok and failures and any(("HIST-BEGIN" in f[1] or "panicked" in f[1] or getattr(f[1], "rc", 0) < 0) for f in failures):
+        # the real code died (panic, abort, signal) while the harness replayed a generated schedule / history: that case is the failing
+        # execution (reads of entries nobody initialised end like this as often as in a wrong value)
+        key, err = [f for f in failures if ("HIST-BEGIN" in f[1] or "panicked" in f[1] or getattr(f[1], "rc", 0) < 0)][0]
+        msg = [l for l in err.splitlines() if "panicked" in l or "abort" in l.lower() or "signal" in l]
+        rep = dict(kind="crash-in-implementation", harness_job=key, history_so_far=[l for l in err.splitlines() if l.startswith("EV") or l.startswith("HIST")],
+                   stderr_tail=err[-2500:], replay_cmd=f"VERIF_SEED={ctx.seed} harness/target/release/" + (getattr(err, "cmd", "") or key))
+        if getattr(err, "last_case", None):
+            rep["harness_line"] = err.last_case[:400000]
+        if not st["ok"]:
+            rep["proof"] = st["detail"][-800:]
+        core.violation(ctx, f"the real code crashed while the harness executed a generated case ({(msg or ['process died'])[0][:200]})", rep)
     elif not st["ok"]:
         core.violation(ctx, "C09 certificates no longer check: " + st["detail"].strip()[:300],
                        dict(kind="proof-broken", detail=st["detail"], failed=st.get("failed_decls", []),
